@@ -118,8 +118,10 @@ class Trace:
         try:
             i, m = self.pair.op(line, model_line)
         except RuntimeError as ex:
-            if "no answer within" not in str(ex):
+            if "no answer within" not in str(ex) and "process died" not in str(ex):
                 raise
+            # (a process that dies on an operation — stack overflow or abort inside the contract code — is treated
+            # like an operation that never answers: the trace ends and the step is reported under C04)
             idx = len(self.ops)
             self.ops.append((line, "X hang", "X hang"))
             ep = parse_call_line(line)["ep"] if line.startswith("call") else None
